@@ -14,6 +14,7 @@
      rdni        print x[-i]                     defk(k) / rdk / rdnk   const K = k; print x[K]; print x[-K]
      wri(v)      x[i] = v                        wrl(k,v)    x[k] = v
      app(v)      append(&'x, v)   (dyn only)     len         print len(x)
+     xset(n)     x = <new literal of n elements / characters>  (dyn, str)      ifxset(n)   if c == 1 { x = ... }
      loop        while j < 2 { print x[i]; i = i + 1; j = j + 1; }
    Run(kind, L, es, c) yields the prescribed observation: the printed lines up to the first access
    whose index (after adding the current length to a negative index) is outside [0, length), and
@@ -30,6 +31,9 @@ CONSTANTS Kind, MaxLen, InitLen
 Elem0(kind, n) == [j \in 1 .. n |-> IF kind = "str" THEN 96 + j ELSE 10 * j]
 S0(kind, n) == [x |-> Elem0(kind, n), i |-> 0, hasI |-> FALSE, kc |-> 0, hasK |-> FALSE, out |-> <<>>,
                 oob |-> FALSE, n |-> 0]
+
+(* the container assigned as a whole from a new literal of n elements (dyn: 110, 120, ...; str: 'k', 'l', ...) *)
+Fresh(n) == [j \in 1 .. n |-> IF Kind = "str" THEN 106 + j ELSE 100 + 10 * j]
 
 Norm(k, len) == IF k < 0 THEN k + len ELSE k
 InB(k, len) == Norm(k, len) >= 0 /\ Norm(k, len) < len
@@ -56,6 +60,8 @@ Step(s, e, c) ==
       [] e.k = "wri"  -> Write(s, s.i, e.w)
       [] e.k = "wrl"  -> Write(s, e.v, e.w)
       [] e.k = "app"  -> [s EXCEPT !.x = Append(@, e.w)]
+      [] e.k = "xset" -> [s EXCEPT !.x = Fresh(e.n)]                    \* x = <literal of n elements>
+      [] e.k = "ifxset" -> IF c = 1 THEN [s EXCEPT !.x = Fresh(e.n)] ELSE s
       [] e.k = "len"  -> [s EXCEPT !.out = Append(@, Len(s.x))]
       [] e.k = "loop" -> LET s1 == Read(s, s.i)
                              s2 == IF s1.oob THEN s1 ELSE [s1 EXCEPT !.i = @ + 1]
@@ -87,7 +93,10 @@ Events(kind, es) ==
        \cup (IF kind # "str" THEN {[k |-> "wrl", v |-> v, w |-> w] : v \in {0 - len, -1, 0, len - 1, len}} ELSE {})
        \cup (IF kind = "dyn" /\ len < InitLen + 2 THEN {[k |-> "app", w |-> w]} ELSE {})
        \cup (IF kind # "fixed" THEN {[k |-> "len"]} ELSE {})
+       \cup (IF kind # "fixed" /\ Cardinality({j \in 1 .. Len(es) : es[j].k \in {"xset", "ifxset"}}) = 0
+             THEN {[k |-> r, n |-> n] : r \in {"xset", "ifxset"}, n \in {InitLen - 2, InitLen + 2}} ELSE {})
 
+IsAccess(e) == e.k \in {"rdw", "rdl", "rdc", "rdo", "rdi", "rdni", "rdk", "rdnk", "wri", "wrl", "loop", "len"}
 VARIABLE hist
 Init == hist = <<>>
 Next == /\ Len(hist) < MaxLen
@@ -96,12 +105,14 @@ Next == /\ Len(hist) < MaxLen
 Spec == Init /\ [][Next]_hist
 
 Abs(es) == <<[c \in {0, 1} |-> LET s == Run(Kind, InitLen, es, c) IN <<s.i, s.hasI, s.kc, s.hasK, Len(s.x), s.oob>>],
-             {j \in 1 .. Len(es) : es[j].k \in {"let", "set", "ifset", "inc", "app"}} # {},
+             {j \in 1 .. Len(es) : es[j].k \in {"let", "set", "ifset", "inc", "app", "xset", "ifxset"}} # {},
+             {j \in 1 .. Len(es) : IsAccess(es[j])} # {},
              IF es = <<>> THEN "none" ELSE es[Len(es)].k>>
 View == Abs(hist)
 Obs(es, c) == LET s == Run(Kind, InitLen, es, c) IN [c |-> c, out |-> s.out, oob |-> s.oob]
 CaseOf(es) == [kind |-> Kind, len0 |-> InitLen, events |-> es, runs |-> <<Obs(es, 0), Obs(es, 1)>>]
-IsAccess(e) == e.k \in {"rdw", "rdl", "rdc", "rdo", "rdi", "rdni", "rdk", "rdnk", "wri", "wrl", "loop", "len"}
-EmitAC == IF IsAccess(hist'[Len(hist')]) THEN PrintT("@@CASE " \o ToJson(CaseOf(hist'))) ELSE TRUE
+(* one scenario per transition once the history has an access: also the transitions that change the index or the
+   container AFTER the last access (a later assignment must not reach back to an earlier access) *)
+EmitAC == IF \E j \in 1 .. Len(hist') : IsAccess(hist'[j]) THEN PrintT("@@CASE " \o ToJson(CaseOf(hist'))) ELSE TRUE
 OobIsSticky == \A c \in {0, 1} : Run(Kind, InitLen, hist, c).oob => Len(hist) > 0
 =============================================================================
